@@ -507,7 +507,10 @@ def check_len(facts, chk):
         ok_fill = fill == ('const', 45, 'u8')
         ok_n = n[0] == 'call' and n[1].endswith('::sum') and any(x[0] == 'call' and x[1].endswith('::map') for x in subexprs(n)) and 'ref_seq' in show(n)
         cl = facts.closures_of(AW + '::new')
-        ok_cl = len(cl) == 1 and any((c.callee.name or '').endswith('::len') for _, c in cl[0].calls())
+        ok_cl = False
+        if len(cl) == 1:
+            ce = ExprBuilder(cl[0]).local_expr(0)
+            ok_cl = ce[0] == 'call' and ce[1].endswith('::len')      # the closure returns exactly len(x)
         pa = facts.fn(RS + '::pseudoalignment')
         ebp = ExprBuilder(pa)
         fe2 = [(bb, c) for bb, c in pa.calls() if (c.callee.name or '') == 'std::vec::from_elem']
